@@ -8,7 +8,7 @@ use std::collections::{BTreeMap, HashSet};
 
 const WALL_OPTS: usize = 36; // space{ok,absent,nil} x cons{ok,absent,nil} x next_to{None,ok,absent,nil}
 const WIN_OPTS: usize = 6; // wall{ok,absent,nil} x cons{ok,absent}
-const LENS: [f32; 4] = [-1.0, -0.0, 0.0, 2.0];
+const LENS: [f32; 6] = [-1.0, -0.0, 0.0, 2.0, -0.004, -1.0e-30];
 
 fn seqs(opts: usize, maxn: usize) -> Vec<Vec<usize>> {
     let mut out = vec![vec![]];
@@ -237,7 +237,7 @@ pub fn run(ctx: &Ctx) -> i32 {
     }
     ctx.finish(
         "model_checking",
-        &format!("full product: 0..2 walls x (space{{ok,absent,nil}} x cons{{ok,absent,nil}} x next_to{{None,ok,absent,nil}}) x 0..{} windows x (wall{{ok,absent,nil}} x cons{{ok,absent}}) x 0..{} bridges x l{{-1,-0.0,0,2}} x {{no space with nil id, one}}; oracle = number of broken links per element id (reference: set membership, l<0), compared with the number of warnings carrying that id; every 97th model also: JSON unchanged by check(), energy_indicators().warnings == check(); + 7 shipped models; non-trivial = at least one broken link expected", 2, ctx.tier.pick(1, 2)),
+        &format!("full product: 0..2 walls x (space{{ok,absent,nil}} x cons{{ok,absent,nil}} x next_to{{None,ok,absent,nil}}) x 0..{} windows x (wall{{ok,absent,nil}} x cons{{ok,absent}}) x 0..{} bridges x l{{-1,-0.0,0,2,-0.004,-1e-30}} x {{no space with nil id, one}}; oracle = number of broken links per element id (reference: set membership, l<0), compared with the number of warnings carrying that id; every 97th model also: JSON unchanged by check(), energy_indicators().warnings == check(); + 7 shipped models; non-trivial = at least one broken link expected", 2, ctx.tier.pick(1, 2)),
         true,
         json!({"space_size": n}),
     )
